@@ -704,6 +704,7 @@ func c16Prop(c *sim.Case) {
 
 func TestC16(t *testing.T) {
 	r := sim.NewRun(t, "C16")
+	r.ShrinkTime = "2s" // real-time cases: a shrink attempt costs seconds
 	defer r.Finish()
 	if !raceEnabled {
 		t.Fatalf("C16 must be built with -race")
